@@ -1150,7 +1150,11 @@ caption_command(vbi_decoder *vbi, struct caption *cc,
 					.text[ch->row1 * COLUMNS];
 
 				word_break(cc, ch, 1);
-				update(ch);
+
+				/* In pop-on mode acp is the non-displayed page,
+				   nothing may reach the displayed one. */
+				if (ch->mode != MODE_POP_ON)
+					update(ch);
 
 				memmove(acp, acp + COLUMNS, sizeof(*acp) * (ch->roll - 1) * COLUMNS);
 
